@@ -142,7 +142,7 @@ PROPS = {
         "design_ref": "DESIGN.md section 6 (C03)",
         "projection": "packet sequence and left-over byte counts after every chunk",
         "mismatch_is_input": True,
-        "level_text": "Coq theorems over every decoder state reachable by any chunk history: (geometry) the result of a call is the same for every way the ring can split Peek(3); (segmentation) a call that reported need-more-data followed by more bytes behaves exactly like the call on all the bytes, and a call that produced a packet or an error produces the same with any later bytes behind it and leaves exactly those bytes; a completed frame consumes exactly its own bytes; the invariant these are stated under is preserved by every call and feed. The ring buffer itself is abstracted to its content (the third-party library is not verified); the tie runs the real Unpack on the real ring over frames x cuts (every single cut position, 1-byte chunks, random) x capacities x every start offset so each multi-byte field meets the wrap. Whole runs: C03_chunking_and_geometry_irrelevant - for every byte string, every cutting into socket reads and every geometry during every read, the read loop (Model/Chunks.v run_chunks; tied by the st.chunks cases) delivers the same packets in the same order and ends the same way (and in the same state) as when the bytes arrive in one piece; C03_run_total - no run panics or needs more than length+1 calls per read. With C01_roundtrip_streaming the delivered packets are exactly the encoded ones.",
+        "level_text": "Coq theorems over every decoder state reachable by any chunk history: (geometry) the result of a call is the same for every way the ring can split Peek(3); (segmentation) a call that reported need-more-data followed by more bytes behaves exactly like the call on all the bytes, and a call that produced a packet or an error produces the same with any later bytes behind it and leaves exactly those bytes; a completed frame consumes exactly its own bytes; the invariant these are stated under is preserved by every call and feed. The ring buffer under the decoders is abstracted to its content; that abstraction is itself a theorem about a concrete model of the third-party ring (Model/Ring.v, RingFast.v: array, size, r, w, isEmpty; Length, Peek, PeekAll, Retrieve, free, Write, makeSpace, NewWithData): C03_ring_history_refines - every history of Write/Length/Peek/Retrieve on a well-formed ring shows what the same history shows on a byte queue, in every geometry incl. growth - and C03_fast_path_leftover_complete - the read loop's 'first, _ := PeekAll()' on a NewWithData ring drops nothing; that model is tied to the library by the rg.ops cases (private state read by reflection, operation sequences compared item by item). The tie for the decoders runs the real Unpack on the real ring over frames x cuts (every single cut position, 1-byte chunks, random) x capacities x every start offset so each multi-byte field meets the wrap. Whole runs: C03_chunking_and_geometry_irrelevant - for every byte string, every cutting into socket reads and every geometry during every read, the read loop (Model/Chunks.v run_chunks; tied by the st.chunks cases) delivers the same packets in the same order and ends the same way (and in the same state) as when the bytes arrive in one piece; C03_run_total - no run panics or needs more than length+1 calls per read. With C01_roundtrip_streaming the delivered packets are exactly the encoded ones.",
         "level_note": "Trusted: kernel, extraction, harness; ring buffer library modelled by its content + adversarial Peek split; the connection-level clause (tcpConn.reading) is exercised over loopback TCP by the client harness (C13/C12 scenarios), not proved.",
         "assumptions": ["ringbuffer v0.0.11 behaves as a byte queue (Length/Peek/Retrieve/Read/Write on the content)", "compress/gzip oracle"],
         "modelled": "Header.Unpack (v1, v2), protocolV1/V2.Unpack, Context.SetHeader/GetHeader/EndUnpack, tcpConn.readPacket; ring buffer by content",
